@@ -6,6 +6,7 @@ import (
 	"os"
 	"path"
 	"reflect"
+	"sort"
 	"strings"
 
 	"github.com/zeromicro/go-zero/core/jsonx"
@@ -340,7 +341,17 @@ func toLowerCaseInterface(v any, info *fieldInfo) any {
 func toLowerCaseKeyMap(m map[string]any, info *fieldInfo) map[string]any {
 	res := make(map[string]any)
 
-	for k, v := range m {
+	// keys that differ only in case end up under the same lower case key: walk them in a fixed order,
+	// so that which one wins does not depend on the iteration order of the map (the greatest key, hence
+	// the all lower case spelling if present, wins).
+	keys := make([]string, 0, len(m))
+	for k := range m {
+		keys = append(keys, k)
+	}
+	sort.Strings(keys)
+
+	for _, k := range keys {
+		v := m[k]
 		ti, ok := info.children[k]
 		if ok {
 			res[k] = toLowerCaseInterface(v, ti)
